@@ -276,13 +276,13 @@ fn hop_to_top(op: &HOp) -> TOp {
 /// Issue a primitive target operation on any target of colour `C`.
 fn issue<C: SimColor, T: DrawTarget<Color = C, Error = SimError>>(d: &mut T, top: &TOp) -> Result<(), SimError> {
     match top {
-        TOp::DrawIter(px) => d.draw_iter(Vague { it: px.iter().map(|(x, y, c)| Pixel(Point::new(*x, *y), C::from_u32(*c))), mode: hint_mode(top) }),
+        TOp::DrawIter(px) => d.draw_iter(Vague::new(px.iter().map(|(x, y, c)| Pixel(Point::new(*x, *y), C::from_u32(*c))), hint_mode(top))),
         TOp::FillContiguous { area, colours, repeat } => {
             let a = crate::erased::rect_of(area);
             let it = colours.iter().map(|c| C::from_u32(*c));
             match repeat {
-                Some(r) => d.fill_contiguous(&a, Vague { it: it.chain(core::iter::repeat(C::from_u32(*r))), mode: hint_mode(top) }),
-                None => d.fill_contiguous(&a, Vague { it, mode: hint_mode(top) }),
+                Some(r) => d.fill_contiguous(&a, Vague::new(it.chain(core::iter::repeat(C::from_u32(*r))), hint_mode(top))),
+                None => d.fill_contiguous(&a, Vague::new(it, hint_mode(top))),
             }
         }
         TOp::FillSolid { area, colour } => d.fill_solid(&crate::erased::rect_of(area), C::from_u32(*colour)),
@@ -806,6 +806,22 @@ fn run_typed<C: SimColor + ColorMapping>(sc: &Scenario, opts: &Opts) -> RunOut {
                                             viol = Some(mk(si, "assert_mismatch", "assert_pattern accepted a pattern that differs from the display in one cell".to_string()));
                                         } else {
                                             out.probes |= probe("assert_pattern_panicked");
+                                        }
+                                        // a pattern that stops short of the content (its rightmost touched
+                                        // column cut off; or its lowest touched row) describes another picture
+                                        if viol.is_none() {
+                                            let rightmost = (0..N).rev().find(|x| (0..N).any(|y| model.cells[y * N + x].is_some()));
+                                            if let Some(xr) = rightmost {
+                                                let narrower: Vec<String> = own.iter().map(|r| r.chars().take(xr).collect()).collect();
+                                                if check(&narrower).is_ok() {
+                                                    viol = Some(mk(si, "assert_mismatch", format!("assert_pattern accepted the display's rendering cut to {} column(s) although column {} holds a drawn cell", xr, xr)));
+                                                }
+                                                let lowest = (0..N).rev().find(|y| (0..N).any(|x| model.cells[y * N + x].is_some())).unwrap();
+                                                let shorter: Vec<String> = own.iter().take(lowest).cloned().collect();
+                                                if viol.is_none() && check(&shorter).is_ok() {
+                                                    viol = Some(mk(si, "assert_mismatch", format!("assert_pattern accepted the display's rendering cut to {} row(s) although row {} holds a drawn cell", lowest, lowest)));
+                                                }
+                                            }
                                         }
                                     }
                                 }
